@@ -17,8 +17,19 @@ if [ -x mc/props/$id/pre.sh ]; then
 fi
 # order matters (later groups win): static shims, then an externally supplied tree (selftest mutants), then generated trees
 python3 mc/tools/mkoverlay.py "$W/overlay.json" $GROUPS_ ${VERIF_EXTRA_OVERLAY:-} ${EXTRA:-} || exit 2
-( cd mc && $GO build -overlay "$W/overlay.json" -o "$W/$id.bin" ./props/$id ) > "$W/build.log" 2>&1 || {
-  echo "[$ID] BUILD FAILED (harness could not be built against the current /repo tree)"; tail -30 "$W/build.log"; exit 2; }
+build() { ( cd mc && $GO build -overlay "$W/overlay.json" -o "$W/$id.bin" ./props/$id ) > "$W/build.log" 2>&1; }
+if ! build; then
+  # The export shims reach into unexported names of tink; if a refactoring of tink renamed them, fall back to the
+  # stubs (same exported API, no internals): the seam-level sections are skipped, everything else still runs.
+  cp "$W/build.log" "$W/build-with-seams.log"
+  VERIF_STUBS=1 python3 mc/tools/mkoverlay.py "$W/overlay.json" $GROUPS_ ${VERIF_EXTRA_OVERLAY:-} ${EXTRA:-} || exit 2
+  if grep -q '\.stub"' "$W/overlay.json" && build; then
+    echo "[$ID] NOTE: the internal seams could not be built against this tree (tink internals changed: $(grep -m1 -o 'zz_verif_export[^ ]*' "$W/build-with-seams.log")); seam-level sections are skipped, all API-level sections run"
+    export VERIF_NOSEAMS=1
+  else
+    echo "[$ID] BUILD FAILED (harness could not be built against the current /repo tree)"; tail -30 "$W/build-with-seams.log"; exit 2
+  fi
+fi
 if [ -x mc/props/$id/build_extra.sh ]; then
   mc/props/$id/build_extra.sh "$W" > "$W/build_extra.log" 2>&1 || { echo "[$ID] extra build step failed"; tail -20 "$W/build_extra.log"; exit 2; }
 fi
